@@ -17,21 +17,97 @@ import (
 // CHILD store refuses the delete, neither part may go, whichever store the delete was issued through. A veto constraint
 // and an fk restrict (another store referencing the child store) sit at the child level; deletes are issued through the
 // parent store, the plain child store and the extended child store.
-const c15VetoCases = 12
+const c15VetoCases = 12 + 6
 
-type c15Veto struct{ armed *bool }
+type c15Veto struct {
+	armed *bool
+	on    boltz.EntityEventType // change type it refuses (default: deletes)
+}
 
 var errC15Veto = errors.New("child-level veto")
 
 func (v *c15Veto) ProcessPreCommit(s *boltz.EntityChangeState[*schema.Ent]) error {
-	if *v.armed && s.ChangeType == boltz.EntityDeleted {
+	on := v.on
+	if on == 0 {
+		on = boltz.EntityDeleted
+	}
+	if *v.armed && s.ChangeType == on {
 		return errC15Veto
 	}
 	return nil
 }
 func (v *c15Veto) ProcessPostCommit(*boltz.EntityChangeState[*schema.Ent]) {}
 
+// c15UpdateVeto: a constraint of the PARENT store refuses updates; it applies to entities with child data exactly as to
+// plain ones, whichever store the update is issued through.
+func c15UpdateVeto(c *core.Ctx, idx int) {
+	cfg := c15Configs[idx%len(c15Configs)]
+	sc := schema.Build(kmodel.Defs(cfg))
+	path := c.TempFile("c15u")
+	db, err := sc.OpenDb(path)
+	if err != nil {
+		c.Violation("C15 setup", err.Error(), nil)
+		return
+	}
+	defer func() { _ = db.Close(); _ = os.Remove(path) }()
+	armed := false
+	sc.St(kmodel.Emps).Store.AddEntityConstraint(&c15Veto{armed: &armed, on: boltz.EntityUpdated})
+	kind := []string{"plain", kmodel.Mgrs, kmodel.Ctrs}[idx%3]
+	through := kmodel.Emps
+	if idx >= 3 && kind != "plain" {
+		through = kind
+	}
+	v := map[string]any{"name": "n1", "title": "t1", "dept": "d1", "roles": []string{"r1"}}
+	err = db.Update(nil, func(ctx boltz.MutateContext) error {
+		if err := sc.St(kmodel.Depts).Store.Create(ctx, &schema.Ent{Id: "d1", Typ: kmodel.Depts, V: map[string]any{"name": "dn"}}); err != nil {
+			return err
+		}
+		create := kmodel.Emps
+		if kind != "plain" {
+			create = kind
+		}
+		if kind == kmodel.Mgrs {
+			v["lead"], v["level"] = true, int64(3)
+		} else if kind == kmodel.Ctrs {
+			v["agency"] = "a1"
+		}
+		return sc.St(create).Store.Create(ctx, &schema.Ent{Id: "m1", Typ: kmodel.Emps, V: v})
+	})
+	if err != nil {
+		c.Violationf("C15 veto setup failed", nil, "%v", err)
+		return
+	}
+	armed = true
+	var before *dump.Dump
+	_ = db.View(func(tx *bbolt.Tx) error { before = dump.Tx(tx); return nil })
+	v2 := map[string]any{}
+	for k, x := range v {
+		v2[k] = x
+	}
+	v2["title"] = "t2"
+	updErr := db.Update(nil, func(ctx boltz.MutateContext) error {
+		return sc.St(through).Store.Update(ctx, &schema.Ent{Id: "m1", Typ: kmodel.Emps, V: v2}, nil)
+	})
+	c.Eval()
+	c.Count("child_level_refusals", 1)
+	combo := fmt.Sprintf("update of a %s entity through %s refused by a parent-store constraint", kind, through)
+	c.Cover("child_level_block", "update veto on the parent store / "+kind+" entity through "+map[bool]string{true: "parent", false: "child"}[through == kmodel.Emps])
+	c.Nontrivial("c15updveto", combo, cfg.String())
+	info := map[string]any{"cfg": cfg.String(), "entity": kind, "through": through, "error": fmt.Sprint(updErr)}
+	var after *dump.Dump
+	_ = db.View(func(tx *bbolt.Tx) error { after = dump.Tx(tx); return nil })
+	if updErr == nil {
+		c.Violationf("C15 an update refused by a constraint of the parent store succeeded ("+combo+")", info, "Update returned nil")
+	} else if after.Hash() != before.Hash() {
+		c.Violationf("C15 a refused update changed the database ("+combo+")", info, "diff: %v", dump.Diff(before, after, nil, 6))
+	}
+}
+
 func c15VetoCase(c *core.Ctx, idx int) {
+	if idx >= 12 {
+		c15UpdateVeto(c, idx-12)
+		return
+	}
 	cfg := c15Configs[idx%len(c15Configs)]
 	defs := kmodel.Defs(cfg)
 	// teams.lead -> managers (the plain child store) with a back-reference list on the child part
